@@ -152,8 +152,10 @@ class Exec:
         if z3.is_int_value(c):
             return z3.simplify(known)
         allids = z3.And(c >= 1, c <= len(self.ct.names))
-        usub = z3.Function('USUB_' + base, I, B)
-        return z3.If(allids, known, usub(c))
+        # a class unknown to the table is below `base` iff it is flagged below base or one of base's known descendants
+        # (so "below InvalidInput" implies "below MITxError" and "below Exception")
+        flags = [z3.Function('USUB_' + d, I, B)(c) for d in self.ct.descendants(base)]
+        return z3.If(allids, known, z3.Or(flags) if flags else z3.BoolVal(False))
 
     # ------------------------------------------------------------------ value helpers
     def truth(self, st, v):
